@@ -50,7 +50,7 @@ class VecObj:
     def __repr__(self): return 'Vec%r' % (self.items,)
 
 class MapObj:
-    __slots__ = ('e',)
+    __slots__ = ('e', 'ck')
     def __init__(self): self.e = []      # list of [key, [value]]
     def __repr__(self): return 'Map%r' % (self.e,)
 
